@@ -145,8 +145,14 @@ def main(argv=None):
     findings_doc = json.load(open(os.path.join(VERIF, "known_findings.json")))
     all_findings = findings_doc.get("findings", [])
     findings = [f for f in all_findings if f["property"] == prop]
-    quals = [q for q, c in registry.items() if prop in c.props and (not a.only or a.only in q)]
-    if not quals:
+    quals = [q for q, c in registry.items() if prop in c.props and not c.assumed and (not a.only or a.only in q)]
+    lock_specs = []
+    try:
+        from contracts.locks import LOCKSPECS
+        lock_specs = [sp for sp in LOCKSPECS if prop in sp.props]
+    except Exception:
+        traceback.print_exc()
+    if not quals and not lock_specs:
         print(f"CHECKER-ERROR: no contracts registered for {prop}")
         return 3
     timeout_ms = 30000 if a.tier == "quick" else 120000
@@ -255,6 +261,44 @@ def main(argv=None):
                 violations.append((r["name"], rpath, " no-failing-input-found"))
             else:
                 undecided.append(r["name"] + " (refuted, not replayable, no baseline)")
+    # ---- ownership / lock-order obligations (C15, C16)
+    lock_results = []
+    if lock_specs and not a.only:
+        from pyvc.source import Repo
+        from pyvc.lockcheck import check as lock_check
+        lrepo = Repo(a.src)
+        for sp in lock_specs:
+            try:
+                res = lock_check(lrepo, sp)
+            except Exception as e:      # noqa
+                errors.append(f"lock discipline of {sp.cls_qual}: {type(e).__name__}: {e}")
+                continue
+            functions.append({"function": sp.cls_qual + " (guarded_by / lock-order obligations)", "obligations": len(res),
+                              "mode": "ownership", "assumed": False})
+            trusted.add("monitor meta-theorem (cited, not machine-checked): with every access of a guarded field inside its "
+                        "lock and an acyclic lock order, each interleaving's effect on that state is that of some "
+                        "sequential order of the critical sections; CPython Lock/RLock semantics; atomicity of a single "
+                        "attribute load")
+            if sp.note:
+                trusted.add(sp.note)
+            for r in res:
+                n_obl += 1
+                all_names.add(r["name"])
+                backends["ownership-analysis"] = backends.get("ownership-analysis", 0) + 1
+                if r["status"] == "proved":
+                    n_dis += 1
+                    if len(lock_results) < 3:
+                        lock_results.append({"obligation": r["name"], "detail": r["detail"]})
+                    continue
+                fname = re.sub(r"[^A-Za-z0-9_.-]+", "_", r["name"])[:150] + ".json"
+                rpath = os.path.join(VERIF, "replays", prop, fname)
+                json.dump({"property": prop, "obligation": r["name"], "kind": r["kind"], "source_line": r["line"],
+                           "solver_output": r["detail"], "input": None,
+                           "note": "ownership / lock-order obligation failed: no schedule is constructed by this family "
+                                   "of technique (a failing interleaving exists by the monitor argument's converse only "
+                                   "informally)"}, open(rpath, "w"), indent=1)
+                violations.append((r["name"], rpath, " no-failing-input-found"))
+    samples.extend(lock_results)
     if a.write_baseline:
         baseline[prop] = sorted(all_names)
         json.dump(baseline, open(baseline_path, "w"), indent=0, sort_keys=True)
